@@ -105,6 +105,195 @@ impl<'a> Satisfier<Key> for Assets<'a> {
     }
 }
 
+/// Plans from `plan::Assets` built the way wallets build them — from extended keys with multipath
+/// and wildcard steps (`Assets::add(DescriptorPublicKey)`) — over descriptors whose keys are children
+/// of those extended keys.  A plan must exist exactly when the keys given cover the policy
+/// (judged here by hand per descriptor).  Differences are reported as HBAD C17 lines.
+fn emit_xpub_plans(out: &mut String) {
+    use bitcoin::bip32::{Xpriv, Xpub};
+    use miniscript::plan::Assets as LibAssets;
+    use miniscript::{DefiniteDescriptorKey, DescriptorPublicKey};
+    use std::str::FromStr;
+    let secp = bitcoin::secp256k1::Secp256k1::new();
+    let xp: Vec<String> = (1u8..=3)
+        .map(|i| Xpub::from_priv(&secp, &Xpriv::new_master(bitcoin::Network::Bitcoin, &[i; 32]).unwrap()).to_string())
+        .collect();
+    // (descriptor text over X1..X3 children, which key subsets satisfy it)
+    let descs: Vec<(String, Box<dyn Fn(u8) -> bool>)> = vec![
+        (format!("wsh(and_v(v:pk({}/0/7),pk({}/1/3)))", xp[0], xp[1]), Box::new(|s| s & 3 == 3)),
+        (format!("wsh(or_d(pk({}/0/1),pk({}/0/2)))", xp[0], xp[1]), Box::new(|s| s & 3 != 0)),
+        (format!("tr({}/0/5,{{pk({}/1/2),pk({}/0/9)}})", xp[2], xp[0], xp[1]), Box::new(|s| s & 7 != 0)),
+        (format!("sh(multi(2,{}/0/4,{}/0/4,{}/1/4))", xp[0], xp[1], xp[2]), Box::new(|s| (s & 7).count_ones() >= 2)),
+        (format!("wsh(thresh(2,pk({}/1/0),s:pk({}/1/0),s:pk({}/0/0)))", xp[0], xp[1], xp[2]), Box::new(|s| (s & 7).count_ones() >= 2)),
+    ];
+    let forms: [(&str, Vec<&str>); 3] =
+        [("multipath", vec!["/<0;1>/*"]), ("ranged", vec!["/0/*", "/1/*"]), ("three-path", vec!["/<0;1;2>/*"])];
+    for (di, (dtext, need)) in descs.iter().enumerate() {
+        let d = match Descriptor::<DefiniteDescriptorKey>::from_str(dtext) {
+            Ok(d) => d,
+            Err(_) => continue,
+        };
+        for (fname, sufs) in forms.iter() {
+            for subset in 0u8..8 {
+                let mut lib = LibAssets::new();
+                for j in 0..3 {
+                    if subset & (1 << j) != 0 {
+                        for suf in sufs.iter() {
+                            if let Ok(k) = DescriptorPublicKey::from_str(&format!("{}{}", xp[j], suf)) {
+                                lib = lib.add(k);
+                            }
+                        }
+                    }
+                }
+                for mall in [false, true] {
+                    let got = catch_unwind(AssertUnwindSafe(|| {
+                        let dd = d.clone();
+                        if mall { dd.into_plan_mall(&lib).is_ok() } else { dd.into_plan(&lib).is_ok() }
+                    }));
+                    let want = need(subset);
+                    match got {
+                        Ok(g) if g == want => writeln!(out, "APLAN ok").unwrap(),
+                        other => writeln!(
+                            out,
+                            "HBAD C17 case=xpub{} kind=xpub mode={} what=assets-plan-differs-from-capabilities lock=0 seq=0 desc={} assets={}:{:03b} lib={} expected={} libkeys=-",
+                            di,
+                            if mall { "mall" } else { "nonmall" },
+                            dtext,
+                            fname,
+                            subset,
+                            match other { Ok(true) => "plan", Ok(false) => "none", Err(_) => "PANIC" },
+                            if want { "plan" } else { "none" }
+                        )
+                        .unwrap(),
+                    }
+                }
+            }
+        }
+    }
+}
+
+/// A provider that holds every key and preimage and claims EVERY time lock: the way a wallet asks
+/// a plan which locks the spend needs before it builds the transaction.
+pub struct AnyLock<'a>(pub Assets<'a>);
+impl<'a> Satisfier<Key> for AnyLock<'a> {
+    fn lookup_ecdsa_sig(&self, k: &Key) -> Option<bitcoin::ecdsa::Signature> { self.0.lookup_ecdsa_sig(k) }
+    fn lookup_tap_key_spend_sig(&self, k: &Key) -> Option<bitcoin::taproot::Signature> { self.0.lookup_tap_key_spend_sig(k) }
+    fn lookup_tap_leaf_script_sig(&self, k: &Key, lh: &TapLeafHash) -> Option<bitcoin::taproot::Signature> {
+        self.0.lookup_tap_leaf_script_sig(k, lh)
+    }
+    fn lookup_tap_control_block_map(&self) -> Option<&BTreeMap<ControlBlock, (ScriptBuf, LeafVersion)>> {
+        self.0.lookup_tap_control_block_map()
+    }
+    fn lookup_sha256(&self, h: &sha256::Hash) -> Option<[u8; 32]> { self.0.lookup_sha256(h) }
+    fn lookup_hash256(&self, h: &hash256::Hash) -> Option<[u8; 32]> { self.0.lookup_hash256(h) }
+    fn lookup_ripemd160(&self, h: &ripemd160::Hash) -> Option<[u8; 32]> { self.0.lookup_ripemd160(h) }
+    fn lookup_hash160(&self, h: &hash160::Hash) -> Option<[u8; 32]> { self.0.lookup_hash160(h) }
+    fn check_older(&self, _n: relative::LockTime) -> bool { true }
+    fn check_after(&self, _n: absolute::LockTime) -> bool { true }
+}
+
+/// Plan first, transaction afterwards (C17 / C01): ask for a plan with every asset and every lock
+/// claimed, build the spending transaction from the locks the plan REPORTS, sign for it, complete the
+/// plan: the result must spend (judged by the driver's oracle on a RUNX line of a case of its own).
+fn emit_planx(w: &World, c: &Case, id: u64, sane: bool, out: &mut String) {
+    let spk = c.desc.script_pubkey();
+    let value = Amount::from_sat(100_000);
+    let allk: u32 = c.keys.iter().fold(0u32, |m, i| m | (1 << i));
+    let (tx0, _, _) = spend_tx(&TxEnv { lock_time: None, sequence: None });
+    let mut scratch = String::new();
+    let s0 = sign_case(w, c, &tx0, value, &spk, &ecdsa_sig, &mut scratch);
+    for mall in [false, true] {
+        let mode = if mall { "mall" } else { "nonmall" };
+        let prov = AnyLock(Assets {
+            w,
+            keymask: allk,
+            premask: (1 << N_PRE) - 1,
+            lock_time: None,
+            sequence: None,
+            ecdsa: &s0.ecdsa,
+            tapleaf: &s0.tapleaf,
+            tapkey: s0.tapkey,
+            internal_idx: c.internal,
+            cbmap: s0.cbmap.as_ref(),
+        });
+        let plan = match catch_unwind(AssertUnwindSafe(|| {
+            let d = c.desc.clone();
+            if mall { d.into_plan_mall(&prov) } else { d.into_plan(&prov) }
+        })) {
+            Ok(Ok(p)) => p,
+            _ => continue,
+        };
+        let a = plan.absolute_timelock.map(|l| l.to_consensus_u32());
+        let r = plan.relative_timelock.map(|l| l.to_sequence().to_consensus_u32());
+        let env2 = TxEnv { lock_time: a, sequence: r };
+        let (tx2, lock, seq) = spend_tx(&env2);
+        writeln!(out, "CASE {}{} {} sane={}", id, if mall { "xm" } else { "xn" }, c.kind, sane as u8).unwrap();
+        writeln!(out, "DESC {}", c.desc).unwrap();
+        for (d, sbytes) in c.ms_dump.iter() {
+            writeln!(out, "MS {}", d).unwrap();
+            writeln!(out, "SCRIPT {}", hex(sbytes)).unwrap();
+            if c.kind == "tr" {
+                let lh = TapLeafHash::from_script(bitcoin::Script::from_bytes(sbytes), LeafVersion::TapScript);
+                writeln!(out, "LEAFH {}", hex(lh.as_byte_array())).unwrap();
+            }
+        }
+        writeln!(out, "SPK {}", hex(spk.as_bytes())).unwrap();
+        writeln!(out, "TX 2 {} {}", lock, seq).unwrap();
+        writeln!(
+            out,
+            "LOCKS {} {}",
+            a.map(|x| x.to_string()).unwrap_or("-".into()),
+            r.map(|x| x.to_string()).unwrap_or("-".into())
+        )
+        .unwrap();
+        let s2 = sign_case(w, c, &tx2, value, &spk, &ecdsa_sig, out);
+        for (i, sig) in s2.ecdsa.iter() {
+            writeln!(out, "SIG {} {}", i, hex(&sig.to_vec())).unwrap();
+        }
+        for ((i, lh), sig) in s2.tapleaf.iter() {
+            writeln!(out, "SIGL {} {} {}", i, hex(lh.as_byte_array()), hex(&sig.to_vec())).unwrap();
+        }
+        let assets2 = Assets {
+            w,
+            keymask: allk,
+            premask: (1 << N_PRE) - 1,
+            lock_time: a.map(absolute::LockTime::from_consensus),
+            sequence: r.map(Sequence),
+            ecdsa: &s2.ecdsa,
+            tapleaf: &s2.tapleaf,
+            tapkey: s2.tapkey,
+            internal_idx: c.internal,
+            cbmap: s2.cbmap.as_ref(),
+        };
+        match catch_unwind(AssertUnwindSafe(|| plan.satisfy(&assets2))) {
+            Ok(Ok((wit, ssig))) => {
+                let mut l = format!("RUNX {} {} {} OK {}", mode, allk, (1 << N_PRE) - 1, wit.len());
+                for it in wit.iter() {
+                    l.push(' ');
+                    l.push_str(&hex(it));
+                }
+                l.push_str(" S ");
+                l.push_str(&hex(ssig.as_bytes()));
+                if c.kind == "tr" && wit.len() >= 2 {
+                    let ok = match ControlBlock::decode(&wit[wit.len() - 1]) {
+                        Ok(cb) => {
+                            let ok_key = XOnlyPublicKey::from_slice(&spk.as_bytes()[2..34]).unwrap();
+                            let sc = ScriptBuf::from_bytes(wit[wit.len() - 2].clone());
+                            cb.verify_taproot_commitment(&w.secp, ok_key, &sc) && cb.leaf_version == LeafVersion::TapScript
+                        }
+                        Err(_) => false,
+                    };
+                    l.push_str(if ok { " TAPOK 1" } else { " TAPOK 0" });
+                }
+                writeln!(out, "{}", l).unwrap();
+            }
+            Ok(Err(_)) => writeln!(out, "RUNX {} {} {} ERR", mode, allk, (1 << N_PRE) - 1).unwrap(),
+            Err(_) => writeln!(out, "RUNX {} {} {} PANIC", mode, allk, (1 << N_PRE) - 1).unwrap(),
+        }
+        writeln!(out, "END").unwrap();
+    }
+}
+
 fn collect_locks<Ctx: ScriptContext>(ms: &Miniscript<Key, Ctx>, abs: &mut Vec<u32>, rel: &mut Vec<u32>) {
     for m in ms.iter() {
         match m.node {
@@ -400,6 +589,13 @@ pub fn run(args: &[String]) {
         .unwrap();
     }
     print!("{}", out);
+    {
+        let mut s = String::new();
+        if catch_unwind(AssertUnwindSafe(|| emit_xpub_plans(&mut s))).is_err() {
+            s.push_str("PANIC emit_xpub_plans\n");
+        }
+        print!("{}", s);
+    }
     let mut rng = Rng(seed ^ 0x5151);
     let mut id = 0u64;
     for c in 0..n {
@@ -420,6 +616,16 @@ pub fn run(args: &[String]) {
                 continue;
             }
         };
+        {
+            let mut s = String::new();
+            id += 1;
+            if catch_unwind(AssertUnwindSafe(|| emit_planx(&w, &case, id, sane, &mut s))).is_ok() {
+                print!("{}", s);
+            } else {
+                println!("END");
+                println!("PANIC emit_planx case={} seed={} c={} desc={}", id, cseed, c, case.desc);
+            }
+        }
         for env in lock_envs(&case, &mut rng) {
             id += 1;
             let mut s = String::new();
